@@ -6,6 +6,7 @@
 # implementation's event log.
 import json
 from vlib import Hit, Result, diff_lines, sh
+from props.stress_twin import run_twin, twin_replay
 
 ASSUMPTIONS = [
     'sequentially consistent interleaving at the granularity head-load / CAS / exchange / reference-count decrement; '
@@ -150,11 +151,30 @@ def run(ctx):
               'a budget of random commands followed by a drain that starts every sender, releases every wrapper and '
               'destroys the mutex) from VERIF_SEED; the controller chooses at every step a command for an idle thread or '
               'lets a thread parked at the head load / CAS / exchange hook continue; the extracted model replays the '
-              'schedule; non-trivial = at least two requests and at least one CAS step; distinct = distinct schedule lines')
+              'schedule; non-trivial = at least two requests and at least one CAS step; distinct = distinct schedule lines. '
+              'STRESS (free-running stress twin, harness/c04_stress.cpp): real concurrency, no controller, no hook installed — '
+              'per trial a fresh mutex (T or void), 2..4 request groups (one readwrite access or 1..6 read accesses each) '
+              'requested and connected sequentially; group 0 is granted up front; then 1..2 releaser threads destroy group 0\'s '
+              'wrappers (the last one runs done(): the exchange that closes the queue) while 1..4 starter threads start() the '
+              'accesses of the later groups back to back in shuffled order (head load + CAS), all released from one spin barrier '
+              'with offsets swept over 0..2047 / 0..255 spin iterations; receivers release inside set_value or keep the wrapper '
+              '(released by the starter afterwards / by the main thread at the end); in half of the trials the mutex is destroyed '
+              'before the race. Monitors per trial, independent of the model: every started access granted exactly once after '
+              'everything is released (lost_grant / granted_twice), no read-write access overlapping anything (overlap_w), every '
+              'grant stamp of a group later than every release stamp of all earlier groups (granted_early; one global fetch_add '
+              'counter), readers/writers see exactly the writes of the earlier read-write groups (version), no receiver error, no '
+              'write to a quarantined freed shared-state block (write_after_free), block accounting (leak, value_not_freed, '
+              'value_freed_early); forked child, crash/hang = hit; 10 s time box quick (~1-2 M trials on an idle machine), 90 s '
+              'thorough. It exists because lock-step cannot schedule inside a step that a code change split in two '
+              '(done(): exchange -> load; store is found by the twin within a few hundred trials, never by lock-step).')
     ctx.build_pika()
     drv = ctx.build_model('C04', 'ExtractC04.v', 'drv_c04.ml')
     h = ctx.build_harness('c04_rw', 'c04_rw.cpp')
+    hs = ctx.build_harness('c04_stress', 'c04_stress.cpp')
     plans = []
+    if twin_replay(ctx, 'c04_stress'):
+        run_twin(ctx, r, 'C04', hs, 'c04_stress', 'RWS', [], 100000000, 10000, 'async_rw_mutex')
+        return r
     if ctx.replay:
         try:
             rp = json.load(open(ctx.replay)).get('replay', {})
@@ -227,4 +247,7 @@ def run(ctx):
             last = outs[-1].split(' ')[2]
             first = int(last) + 1
             restarts += 1
+    if not ctx.replay:
+        run_twin(ctx, r, 'C04', hs, 'c04_stress', 'RWS', [], 100000000, 10000 if ctx.tier == 'quick' else 90000,
+                 'async_rw_mutex', min_trials=100000)
     return r
